@@ -89,6 +89,7 @@ func c12Case(r *ev.Run, sf stackFactory, g *rng.R, caseID string, G int, replyIn
 	var delivered, deliveredFresh atomic.Int64
 	var afterCloseOK atomic.Int64 // calls that returned nil although they began after Close had returned
 	var lateDetail atomic.Value
+	var enteredAfterClose atomic.Int64
 	bg := context.Background()
 	var rwg sync.WaitGroup
 	recvLoop := func(lg *rng.R) {
@@ -99,6 +100,9 @@ func c12Case(r *ev.Run, sf stackFactory, g *rng.R, caseID string, G int, replyIn
 				ran := false
 				err := target.Receive(bg, func(m Msg) {
 					ran = true
+					if closeReturned.Load() {
+						enteredAfterClose.Add(1) // counted, not judged: the callback began after Close had returned (whenever the message was made)
+					}
 					delivered.Add(1)
 					if _, id, epoch, ok := c12Parse(m.Payload); ok && epoch == 1 {
 						deliveredFresh.Add(1)
@@ -384,6 +388,9 @@ func c12Case(r *ev.Run, sf stackFactory, g *rng.R, caseID string, G int, replyIn
 		viol("serveask-blocked-after-close", "ServeAsk calls that were blocked when Close was called are still parked inside the library after Close returned", map[string]any{"stacks": trimStacks(stacks, 3)})
 	} else if v == gor.Slow {
 		r.Inconclusive("c12 servers slow on " + name)
+	}
+	if n := enteredAfterClose.Load(); n > 0 {
+		r.Count("callbacks_entered_after_close_returned/"+name, n)
 	}
 	if d := lateDetail.Load(); d != nil {
 		viol("delivered-after-close", d.(string), map[string]any{"fresh_deliveries": deliveredFresh.Load()})
